@@ -1,0 +1,41 @@
+//! Hooks for the external verification harness in `/verif`.
+//!
+//! This module only exists when the crate is built with `--cfg truth_verif`.  It adds no behavior;
+//! it re-exports a few private items and provides an (off by default) thread-local event sink.
+
+use crate::diagnostic::RootEmitter;
+use crate::game::{Game, LanguageKey};
+use crate::mapfile::Mapfile;
+
+/// The built-in signatures for a language, exactly as `cli_def::load_mapfiles` obtains them.
+pub fn core_mapfile(emitter: &RootEmitter, game: Game, language: LanguageKey) -> Mapfile {
+    crate::core_mapfiles::core_mapfile(emitter, game, language)
+}
+
+/// Thread-local event sink.  Nothing is recorded unless a harness calls [`trace::install`].
+pub mod trace {
+    use std::cell::RefCell;
+
+    thread_local! {
+        static SINK: RefCell<Option<Vec<serde_json::Value>>> = RefCell::new(None);
+    }
+
+    /// Start recording events on this thread (discarding anything recorded before).
+    pub fn install() {
+        SINK.with(|s| *s.borrow_mut() = Some(vec![]));
+    }
+
+    /// Stop recording and return everything recorded since [`install`].
+    pub fn take() -> Vec<serde_json::Value> {
+        SINK.with(|s| s.borrow_mut().take().unwrap_or_default())
+    }
+
+    /// Record one event.  The closure is only evaluated when a sink is installed.
+    pub fn emit(make_event: impl FnOnce() -> serde_json::Value) {
+        SINK.with(|s| {
+            if let Some(events) = s.borrow_mut().as_mut() {
+                events.push(make_event());
+            }
+        });
+    }
+}
